@@ -95,7 +95,11 @@ class Problem:
         self.F = F
         nk, nt = F["nk"], F["nt"]
         self.nk, self.nt = nk, nt
-        self.knobs = KnobDict({f"k{i}": float(s["x0"][i]) for i in range(nk)})
+        # names / tags may be chosen so that one is a prefix of another (k1 / k10)
+        self.kn = list(s.get("knob_names") or [f"k{i}" for i in range(nk)])
+        self.vtags = list(s.get("vary_tags") or [f"v{i}" for i in range(nk)])
+        self.ttags = list(s.get("target_tags") or [f"t{i}" for i in range(nt)])
+        self.knobs = KnobDict({self.kn[i]: float(s["x0"][i]) for i in range(nk)})
         self.calls = 0
         self.fail_at = None
         self.alt_target = alt_target       # (index, function) : differential twin for a disabled target
@@ -122,12 +126,12 @@ class Problem:
         self.max_step = s["max_step"]
         vary = []
         for i in range(nk):
-            vary.append(Vary(f"k{i}", self.knobs, limits=None if s["limits"] is None else s["limits"][i],
+            vary.append(Vary(self.kn[i], self.knobs, limits=None if s["limits"] is None else s["limits"][i],
                              step=s["steps"], weight=None if s["kw"] is None else s["kw"][i],
-                             max_step=None if s["max_step"] is None else s["max_step"][i], tag=f"v{i}",
+                             max_step=None if s["max_step"] is None else s["max_step"][i], tag=self.vtags[i],
                              active=(i not in s["v_inactive"])))
         targets = [Target(i, self.tvals[i], tol=self.tols[i], weight=None if s["tw"] is None else s["tw"][i],
-                          action=self.action, tag=f"t{i}") for i in range(nt)]
+                          action=self.action, tag=self.ttags[i]) for i in range(nt)]
         self.opt = Optimize(vary, targets, n_steps_max=s["nsm"], restore_if_fail=s["restore"], show_call_counter=False,
                             verbose=False, solver_options=s.get("solver_options", {}))
         if s["dv"]:
@@ -145,7 +149,7 @@ class Problem:
         return vals
 
     def knob_values(self):
-        return [dict.__getitem__(self.knobs, f"k{i}") for i in range(self.nk)]
+        return [dict.__getitem__(self.knobs, self.kn[i]) for i in range(self.nk)]
 
     def vary_flags(self):
         return [bool(v.active) for v in self.opt._err.vary]
